@@ -139,4 +139,138 @@ theorem unpack_normal64 (sg ex mt : Nat) (hs : sg < 2) (hex1 : 0 < ex) (hex2 : e
     rw [this]
   rw [h1, h2, h3, if_neg (by omega), if_neg (by omega)]
 
+/-! ## packed normal binary64 values -/
+
+/-- the bit pattern of `±Q·2^FE` for a normalised `Q ∈ [2^52, 2^53)` -/
+def pack64 (neg : Bool) (Q : Nat) (FE : Int) : Nat :=
+  (if neg then 9223372036854775808 else 0) + ((FE + 1074).toNat * 4503599627370496 + Q)
+
+theorem pack64_lt (neg : Bool) (Q : Nat) (FE : Int) (hQ2 : Q < 9007199254740992)
+    (h2 : FE + 1075 < 2047) : pack64 neg Q FE < 18446744073709551616 := by
+  unfold pack64; split <;> omega
+
+theorem unpack_pack64 (neg : Bool) (Q : Nat) (FE : Int) (hQ1 : 4503599627370496 ≤ Q)
+    (hQ2 : Q < 9007199254740992) (h1 : -1074 ≤ FE) (h2 : FE + 1075 < 2047) :
+    unpack .f64 (pack64 neg Q FE) = .fin neg Q FE := by
+  have e : pack64 neg Q FE = (if neg then 1 else 0) * 9223372036854775808 +
+      (FE + 1075).toNat * 4503599627370496 + (Q - 4503599627370496) := by
+    unfold pack64; split <;> omega
+  rw [e, unpack_normal64 _ _ _ (by split <;> omega) (by omega) (by omega) (by omega)]
+  have e1 : Q - 4503599627370496 + 4503599627370496 = Q := by omega
+  have e2 : (((FE + 1075).toNat : Nat) : Int) - 1075 = FE := by omega
+  rw [e1, e2]
+  cases neg <;> rfl
+
+theorem withSign64 (neg : Bool) (x : Nat) :
+    withSign .f64 neg x = (if neg then 9223372036854775808 else 0) + x := by
+  unfold withSign; rw [signBit_f64]; split <;> omega
+
+/-- rounding a value that is exactly a normalised `Q·2^FE` (given as `n·2^e` with the shift either
+    way) packs it exactly -/
+theorem roundPack64_exact (neg : Bool) (n : Nat) (e : Int) (Q : Nat) (FE : Int)
+    (hQ1 : 4503599627370496 ≤ Q) (hQ2 : Q < 9007199254740992) (h1 : -1074 ≤ FE)
+    (h2 : FE + 1075 < 2047)
+    (hv : (FE ≤ e ∧ Q = n * 2^(e - FE).toNat) ∨ (e < FE ∧ n = Q * 2^(FE - e).toNat)) :
+    roundPack .f64 neg n e = pack64 neg Q FE := by
+  have hn : n ≠ 0 := by
+    rcases hv with ⟨_, h⟩ | ⟨_, h⟩
+    · intro h0; rw [h0] at h; omega
+    · have := Nat.two_pow_pos (FE - e).toNat
+      intro h0; rw [h0] at h
+      have : 0 < Q * 2^(FE - e).toNat := Nat.mul_pos (by omega) this
+      omega
+  rw [roundPack_pos _ _ _ _ hn, withSign64]
+  unfold pack64
+  congr 1
+  rcases hv with ⟨hle, hq⟩ | ⟨hlt, hq⟩
+  · -- left shift: n has at most 53 bits
+    have hp := Nat.two_pow_pos (e - FE).toNat
+    have hn0 : 0 < n := by omega
+    have hbl : bitLen Q = bitLen n + (e - FE).toNat := by rw [hq]; exact bitLen_mul_pow n _ hn0
+    have hb53 : bitLen Q = 53 := bitLen_eq (k := 52) (by omega) (by omega)
+    have hfe : FE = if e + (bitLen n : Int) - 53 < -1074 then -1074 else e + (bitLen n : Int) - 53 := by
+      split <;> omega
+    rw [roundMag_f64 n e FE hfe]
+    simp only [if_pos hle, ← hq]
+    rw [if_neg (by omega)]
+  · have hs : 0 < (FE - e).toNat := by omega
+    have := roundMag64_shr Q e (FE - e).toNat hs (by omega) hQ2 (Or.inl hQ1) (by omega)
+    rw [← hq] at this
+    rw [this]
+    have e1 : e + ((FE - e).toNat : Int) = FE := by omega
+    rw [e1, if_neg (by omega)]
+
+
+/-! ## the soft-float operations on finite operands -/
+
+theorem add_fin_fin (f : Fmt) (a b : Nat) (s : Bool) (m : Nat) (e : Int) (t : Bool) (n : Nat) (g : Int)
+    (ha : unpack f a = .fin s m e) (hb : unpack f b = .fin t n g) :
+    Num.add f a b =
+      (let e0 := if e ≤ g then e else g
+       let x : Int := (m * 2 ^ (e - e0).toNat : Nat)
+       let y : Int := (n * 2 ^ (g - e0).toNat : Nat)
+       let x := if s then -x else x
+       let y := if t then -y else y
+       let z := x + y
+       if z == 0 then withSign f (s && t) 0 else roundPack f (z < 0) z.natAbs e0) := by
+  unfold Num.add; rw [ha, hb]
+
+theorem floor_fin (f : Fmt) (a : Nat) (s : Bool) (m : Nat) (e : Int) (ha : unpack f a = .fin s m e) :
+    Num.floor f a =
+      if e ≥ 0 then a
+      else
+        (let sh := (-e).toNat
+         let q := m / 2 ^ sh
+         let r := m % 2 ^ sh
+         let q := if s && r != 0 then q + 1 else q
+         roundPack f s q 0) := by
+  unfold Num.floor; rw [ha]
+
+theorem convert_fin (src dst : Fmt) (a : Nat) (s : Bool) (m : Nat) (e : Int)
+    (ha : unpack src a = .fin s m e) : convert src dst a = roundPack dst s m e := by
+  unfold convert; rw [ha]
+
+theorem exists_jk64 (m : Nat) (h0 : 0 < m) (h : m < 9007199254740992) :
+    ∃ j k, j + k = 52 ∧ 2^j ≤ m ∧ m < 2^(j+1) := by
+  have hm : m ≠ 0 := by omega
+  have hl : m.log2 < 53 := (Nat.log2_lt hm).2 (by omega)
+  exact ⟨m.log2, 52 - m.log2, by omega, Nat.log2_self_le hm, Nat.lt_log2_self⟩
+
+/-- normalising a `j+1`-bit number to 53 bits -/
+theorem norm64 (m j k : Nat) (hjk : j + k = 52) (h1 : 2^j ≤ m) (h2 : m < 2^(j+1)) :
+    4503599627370496 ≤ m * 2^k ∧ m * 2^k < 9007199254740992 := by
+  constructor
+  · have h : 2^j * 2^k = 4503599627370496 := by rw [← Nat.pow_add, hjk]
+    have := Nat.mul_le_mul_right (2^k) h1
+    omega
+  · have h53 : j + 1 + k = 53 := by omega
+    have h : 2^(j+1) * 2^k = 9007199254740992 := by rw [← Nat.pow_add, h53]
+    have := (Nat.mul_lt_mul_right (Nat.two_pow_pos k)).2 h2
+    omega
+
+/-- stage 1: `float64(f)` is exact -/
+theorem stage1 (a : Nat) (s : Bool) (m : Nat) (e : Int) (j k : Nat) (ha : unpack .f32 a = .fin s m e)
+    (hjk : j + k = 52) (h1 : 2^j ≤ m) (h2 : m < 2^(j+1)) (he1 : -149 ≤ e) (he2 : e ≤ 104) :
+    convert .f32 .f64 a = pack64 s (m * 2^k) (e - k) := by
+  obtain ⟨hq1, hq2⟩ := norm64 m j k hjk h1 h2
+  rw [convert_fin _ _ _ _ _ _ ha]
+  apply roundPack64_exact _ _ _ _ _ hq1 hq2 (by omega) (by omega)
+  left
+  refine ⟨by omega, ?_⟩
+  have : (e - (e - (k : Int))).toNat = k := by omega
+  rw [this]
+
+/-- stage 2: `* 64` is exact (exponent + 6) -/
+theorem stage2 (c64 : Nat) (hc : unpack .f64 c64 = .fin false 4503599627370496 (-46))
+    (s : Bool) (M : Nat) (E : Int) (hM1 : 4503599627370496 ≤ M) (hM2 : M < 9007199254740992)
+    (hE1 : -1074 ≤ E) (hE2 : E + 1081 < 2047) :
+    Num.mul .f64 (pack64 s M E) c64 = pack64 s M (E + 6) := by
+  have hu := unpack_pack64 s M E hM1 hM2 hE1 (by omega)
+  rw [mul_fin_fin _ _ _ _ _ _ _ _ _ hu hc, bne_false]
+  apply roundPack64_exact _ _ _ _ _ hM1 hM2 (by omega) (by omega)
+  right
+  refine ⟨by omega, ?_⟩
+  have : (E + 6 - (E + -46)).toNat = 52 := by omega
+  rw [this]
+
 end Ivg.Quant
